@@ -16,6 +16,7 @@ import PyAbel.Model.Polar
 import PyAbel.Model.Distributions
 import PyAbel.Model.Representations
 import PyAbel.Model.RbasexImage
+import PyAbel.Model.Polynomial
 open PyAbel PyAbel.Proto
 
 def axOfNat : Nat → Option SymAxis
@@ -46,6 +47,9 @@ def namedMatrix : String → Option (Nat → Nat → Float)
   | "twoPointD" => some (fun i j => twoPointD i j)
   | "daun0" => some (fun j i => daun0 j i)              -- A[j,i]
   | "daun0T" => some (fun i j => daun0 j i)             -- U = Aᵀ
+  | "threePointD" => some (fun i j => threePointD i j)
+  | "daun1" => some (fun j i => daun1 j i)
+  | "daun2" => some (fun j i => daun2 j i)
   | _ => none
 
 /-! cache machines: keys cross the protocol as comma-separated naturals -/
@@ -205,6 +209,25 @@ def handle (toks : List String) : String :=
       let f := Rbasex.frame out h w g
       showImg ⟨f.rows, f.cols, fun i j => Rbasex.outPx g.rmax nn odd c f i j⟩
     | _, _, _, _, _, _, _, _, _ => "bad-op"
+  -- ssc r0 s <c…>  → shift/stretch-transformed coefficients ;  aconv na <a…> <b…> → Angular product ;  cossinc m n → ints
+  | "ssc" :: r0 :: sc :: rest =>
+    match parseFloat r0, parseFloat sc, parseFloats rest with
+    | some r0, some sc, some xs =>
+      let n := xs.size
+      s!"ok 1 {n} " ++ showFloats ((List.range n).map (Poly.ssCoeff n (fun i => xs.getD i 0.0) r0 sc))
+    | _, _, _ => "bad-op"
+  | "aconv" :: na :: rest =>
+    match na.toNat?, parseFloats rest with
+    | some na, some xs =>
+      if xs.size < na then "bad-op" else
+      let nb := xs.size - na
+      s!"ok 1 {na + nb - 1} " ++ showFloats ((List.range (na + nb - 1)).map
+        (Poly.convolve na nb (fun i => xs.getD i 0.0) (fun i => xs.getD (na + i) 0.0)))
+    | _, _ => "bad-op"
+  | ["cossinc", m, n] =>
+    match m.toNat?, n.toNat? with
+    | some m, some n => s!"ok {" ".intercalate ((List.range (m + n + 1)).map fun k => toString (Poly.cossinCoeff m n k))}"
+    | _, _ => "bad-op"
   -- cossin N → N×N integers ;  harm odd terms → terms×terms (exact rationals printed as num/den)
   | ["cossin", n] =>
     match n.toNat? with
